@@ -1,6 +1,7 @@
 import TxdbusModel.Proofs.Sig.Split
 import TxdbusModel.Proofs.Sig.Parse
 import TxdbusModel.Proofs.Wire.Infer
+import TxdbusModel.Proofs.Wire.Claim
 import TxdbusModel.Sig.ArgCount
 import TxdbusModel.Wire.InferOrig
 import TxdbusModel.Gen.Wrappers
@@ -206,6 +207,80 @@ theorem prefix_model_dict_value_from_last :
     sigFromPy (.list [.int .plain 2, .bool true]) = .ok "ai".toList := by
   decide
 
+/-! ## 4. Variant round trip - the inference side
+
+Full statement (`variant_roundtrip`), for every value `v` inside the claim (`InClaim`, Wire/Claim.lean):
+    `Code.marshal fuel "v" [v] 0 le none = .ok (n, bytes, _)` for sufficient fuel, and
+    `Code.unmarshal fuel "v" bytes 0 le none = .ok (n, [w])` with `w` equal to `v` under Python equality
+    after the documented normalisation (tuple -> list, bytearray -> list of ints, wrapper -> plain).
+It is the composition of three facts:
+  (a) [proved here]  inside the claim, `sigFromPy v` is the rendering of ONE type `t`, the splitter cuts
+      it into exactly that piece, and `v` CONFORMS to `t` (`Travels`): every scalar fits the type it
+      travels under, element-wise, with variants exactly where the elements differ in Python class;
+  (b) [C02, Wire/Code.lean = Wire/Spec.lean on conforming values] the code model's marshal / unmarshal
+      compute `Spec.encode` / `Spec.decode` at type `.variant` for the spec value denoted by a conforming `v`;
+  (c) [C01, proved: `Spec.decode_encode`] the spec codec round-trips on every value the encoder accepts.
+(b) is owned by the C01/C02 contributor and was not finished when this file was written, so the theorem
+proved here is (a), named `_partial`.  What is missing is only the bridge `Travels okPath v t ->
+exists val, Code.Rep [] val false t v 0 0 /\ Spec.encode accepts val` (Proofs/Wire/Rep.lean) and (b). -/
+
+/-- (a): inside the claim the inferred signature is one complete type, splits into itself, and the
+value conforms to it. -/
+theorem variant_roundtrip_partial (okPath : List Char → Bool) (v : PyVal) (h : InClaim okPath v) :
+    ∃ t : Ty, sigFromPy v = .ok t.render ∧ genCompleteTypes t.render = .ok [t.render] ∧
+      lazyPieces t.render = ([t.render], none) ∧ Travels okPath v t := by
+  obtain ⟨t, ht, htr⟩ := claim_travels okPath v h
+  refine ⟨t, sigFromPy_of_inferTy v t ht, genCompleteTypes_render t, ?_, htr⟩
+  have := lazyPieces_renderAll [t]
+  simpa [renderAll] using this
+
+/-- The conformance hypothesis is exactly where the two repaired defects sat: the types the snapshot
+inferred are types the values do NOT conform to. -/
+theorem prefix_inferred_types_do_not_fit (okPath : List Char → Bool) :
+    ¬ Travels okPath (.int .plain 1099511627776) (.basic .i) ∧
+    ¬ Travels okPath (.dict [(.str .plain ['a'], .int .plain 2), (.str .plain ['b'], .bool true)])
+        (.array (.dict (.basic .s) (.basic .b))) := by
+  constructor
+  · intro h
+    cases h with
+    | basic _ _ hf => simp [fitsBasic, Basic.intRange?, PyVal.asInt?] at hf
+  · intro h
+    cases h with
+    | dict _ _ _ _ hv =>
+      have := hv (.str .plain ['a'], .int .plain 2) (by simp)
+      cases this with
+      | basic _ _ hf => simp [fitsBasic, Basic.intRange?] at hf
+
+/-- evaluation of the small side conditions of the examples below -/
+local macro "ev" : tactic =>
+  `(tactic| simp [inferTy, IntCls.basic?, intBasic, StrCls.basic, fitsBasic, Basic.intRange?, PyVal.asInt?,
+      PyVal.isScalar, PyVal.pyType])
+
+/-- The hypotheses of `variant_roundtrip_partial` are satisfiable by non-trivial values:
+`{'a': 2, 'b': True}` (values of different Python types travelling as the common base type) and
+`[1, 'x']` (nested variants). -/
+example (okPath : List Char → Bool) :
+    InClaim okPath (.dict [(.str .plain ['a'], .int .plain 2), (.str .plain ['b'], .bool true)]) := by
+  refine .dictSame _ _ _ .s (by decide) ?_ ?_ (.scalar _ .i (by ev) (by ev) (by ev)) ?_ ?_
+  · intro kv hkv
+    simp at hkv
+    rcases hkv with rfl | rfl <;> ev
+  · intro kv hkv
+    simp at hkv
+    rcases hkv with rfl | rfl <;> ev
+  · intro kv hkv
+    simp at hkv; subst hkv
+    exact .scalar _ .b (by ev) (by ev) (by ev)
+  · intro kv hkv
+    simp at hkv; subst hkv
+    exact Or.inr ⟨by ev, .i, by ev, by ev⟩
+
+example (okPath : List Char → Bool) : InClaim okPath (.list [.int .plain 1, .str .plain ['x']]) := by
+  refine .listMixed _ _ (by decide) (.scalar _ .i (by ev) (by ev) (by ev)) ?_
+  intro e he
+  simp at he; subst he
+  exact .scalar _ .s (by ev) (by ev) (by ev)
+
 end Txdbus.C19
 
 #print axioms Txdbus.C19.split_render
@@ -229,3 +304,5 @@ end Txdbus.C19
 #print axioms Txdbus.C19.plain_int_rule
 #print axioms Txdbus.C19.prefix_model_f28_infers_i
 #print axioms Txdbus.C19.prefix_model_dict_value_from_last
+#print axioms Txdbus.C19.variant_roundtrip_partial
+#print axioms Txdbus.C19.prefix_inferred_types_do_not_fit
